@@ -150,7 +150,38 @@ static bool parseSpec(const std::string& spec, std::string& base,
     return !base.empty();
 }
 
-// composite base types:  T ::= builtin | L(T) | U(T+T+...)   -> named simple types c1, c2, ... ; returns the QName to use
+// facet children of one restriction step from "f=v;f=v" (enum=v1|v2, '~' = a space inside an enumeration value)
+static void addFacets(std::string& s, const std::string& body) {
+    size_t i = 0;
+    while (i < body.size()) {
+        size_t j = body.find(';', i);
+        if (j == std::string::npos) j = body.size();
+        std::string kv = body.substr(i, j - i);
+        i = j + 1;
+        size_t e = kv.find('=');
+        if (e == std::string::npos) continue;
+        std::string k = kv.substr(0, e), v = kv.substr(e + 1);
+        if (k == "enum") {
+            size_t a = 0;
+            while (a <= v.size()) {
+                size_t b = v.find('|', a);
+                if (b == std::string::npos) b = v.size();
+                std::string ev = v.substr(a, b - a);
+                for (char& ch : ev) if (ch == '~') ch = ' ';
+                s += "<xs:enumeration value=\"";
+                xmlEscape(s, ev);
+                s += "\"/>";
+                a = b + 1;
+            }
+        } else {
+            s += "<xs:" + k + " value=\"";
+            xmlEscape(s, v);
+            s += "\"/>";
+        }
+    }
+}
+
+// composite base types:  T ::= builtin | L(T) | U(T+T+...) | R(T:facets:...)   -> named simple types c1, c2, ... ; returns the QName to use
 static std::string genComposite(const std::string& t, size_t& pos, std::string& defs, int& counter) {
     if (t.compare(pos, 2, "L(") == 0) {
         pos += 2;
@@ -173,8 +204,27 @@ static std::string genComposite(const std::string& t, size_t& pos, std::string& 
         defs += " <xs:simpleType name=\"" + name + "\"><xs:union memberTypes=\"" + members + "\"/></xs:simpleType>\n";
         return "t:" + name;
     }
+    if (t.compare(pos, 2, "R(") == 0) {
+        // R(T:facets:facets...) = restriction steps of T, one per ':'-introduced group (an empty group = a step that
+        // declares no facet at all)
+        pos += 2;
+        std::string prev = genComposite(t, pos, defs, counter);
+        while (pos < t.size() && t[pos] == ':') {
+            pos++;
+            size_t e = pos;
+            while (e < t.size() && t[e] != ':' && t[e] != ')') e++;
+            std::string name = "c" + std::to_string(++counter);
+            defs += " <xs:simpleType name=\"" + name + "\"><xs:restriction base=\"" + prev + "\">";
+            addFacets(defs, t.substr(pos, e - pos));
+            defs += "</xs:restriction></xs:simpleType>\n";
+            prev = "t:" + name;
+            pos = e;
+        }
+        if (pos < t.size() && t[pos] == ')') pos++;
+        return prev;
+    }
     size_t e = pos;
-    while (e < t.size() && t[e] != '+' && t[e] != ')') e++;
+    while (e < t.size() && t[e] != '+' && t[e] != ')' && t[e] != ':') e++;
     std::string b = t.substr(pos, e - pos);
     pos = e;
     return "xs:" + b;
